@@ -3,6 +3,7 @@ import Pyunicorn.Lemmas.SimilarityIeee
 import Pyunicorn.Lemmas.SimilarityWeight
 import Pyunicorn.Lemmas.SimilarityHilbert
 import Pyunicorn.Generated.ArithC09
+import Pyunicorn.Model.SimilarityScript
 /-!
 # C09 — similarity networks link exactly the pairs above the threshold
 
@@ -803,5 +804,108 @@ example : ((mkHilbert 2 true (fun i j => if i = j then 1 else 3/4)
         (fun i j => if i < j then 1/2 else if j < i then -1/2 else 0)]).map
       (fun h => (h.net.directed, h.net.A, h.net.nLinks, h.net.density))
     = some (false, [false, true, true, false], 1, some 1) := by decide +kernel
+
+section Scripts
+open Script
+
+/-! ## 8. the method bodies regenerated from the source are the model (round 3) -/
+
+/-- `ClimateNetwork.set_threshold` as written = `Net.setThreshold` -/
+theorem script_setThreshold (fr : Frame) :
+    (run 1 false StructC09.setThreshold fr).map (·.h.net) = some (fr.h.net.setThreshold fr.argθ) := by
+  rfl
+
+/-- the steps of `threshold_from_link_density` (selection of **all off-diagonal** entries, ascending
+sort, clamped quantile index) = `thresholdFromIndex` -/
+theorem script_thresholdFromLinkDensity (S : Sim) (N k : Nat) :
+    quantile StructC09.thresholdFromLinkDensity S N k = thresholdFromIndex S N k := by
+  rfl
+
+/-- `ClimateNetwork.set_link_density` as written = `Net.setLinkDensity` -/
+theorem script_setLinkDensity (fr : Frame) :
+    (run 2 false StructC09.setLinkDensity fr).map (·.h.net) = fr.h.net.setLinkDensity fr.argK := by
+  simp only [run, StructC09.setLinkDensity, execList, execStmt, script_thresholdFromLinkDensity,
+    Net.setLinkDensity]
+  cases h : thresholdFromIndex fr.h.net.S fr.h.net.N fr.argK <;> rfl
+
+/-- `ClimateNetwork.set_non_local` as written = `Net.setNonLocal` -/
+theorem script_setNonLocal (fr : Frame) :
+    (run 2 false StructC09.setNonLocal fr).map (·.h.net) = some (fr.h.net.setNonLocal fr.argNl) := by
+  simp only [run, StructC09.setNonLocal, execList, execStmt, Net.setNonLocal]
+  by_cases hb : (fr.h.net.nonLocal != fr.argNl) = true
+  · simp only [hb, Bool.not_true, if_true]; rfl
+  · have hb' : (fr.h.net.nonLocal != fr.argNl) = false := by simpa using hb
+    simp [hb']
+
+/-- `ClimateNetwork(…, threshold=θ)` as written = `mkThreshold` -/
+theorem script_init_threshold (fr : Frame) (θ : Rat) (hθ : fr.initθ = some θ) :
+    (run 3 false StructC09.init fr).map (·.h.net)
+      = some (({ fr.h.net with directed := fr.argDir, S := absSim fr.initS,
+                               nonLocal := fr.argNl } : Net).setThreshold θ) := by
+  simp only [run, StructC09.init, execList, execStmt, hθ, setNet, back, setThresholdOf]
+  simp [StructC09.setThreshold, execList, execStmt, setNet, val, Net.setThreshold,
+    Net.assignAdjacency]
+
+/-- **construction without threshold and link density raises** (the `print` branch generates no
+network, `GeoNetwork.__init__(adjacency=self.adjacency)` then fails) — on a fresh object -/
+theorem script_init_neither_raises (fr : Frame) (h1 : fr.initθ = none) (h2 : fr.initK = none)
+    (h3 : fr.hasAdj = false) : run 3 false StructC09.init fr = none := by
+  simp [run, StructC09.init, execList, execStmt, h1, h2, h3, setNet]
+
+/-- `_regenerate_network` as written = `Net.regenerate` (re-initialisation with the stored
+similarity, threshold, `non_local` and `directed`) -/
+theorem script_regenerate (fr : Frame) (ha : fr.hasAdj = true) :
+    (run 4 false StructC09.regenerate fr).map (·.h.net) = some (fr.h.net.regenerate fr.h.net.S) := by
+  simp only [run, StructC09.regenerate, execList, execStmt, back]
+  simp [StructC09.init, StructC09.setThreshold, execList, execStmt, setNet, val, back,
+    setThresholdOf, Net.regenerate, Net.setThreshold, Net.assignAdjacency, ha]
+
+/-- `HilbertClimateNetwork.set_threshold` as written = `HNet.setThreshold` -/
+theorem script_hilbert_setThreshold (fr : Frame) :
+    (run 2 true StructC09.hilbertSetThreshold fr).map (·.h) = some (fr.h.setThreshold fr.argθ) := by
+  simp only [run, StructC09.hilbertSetThreshold, execList, execStmt, back]
+  cases hd : fr.h.net.directed <;>
+    simp [StructC09.setThreshold, execList, execStmt, setNet, val, HNet.setThreshold,
+      HNet.maskIf, mask, Net.setThreshold, Net.assignAdjacency, hd]
+
+/-- `HilbertClimateNetwork.set_directed` as written (`_set_directed(d, True)`, `_regenerate_network()`
+— i.e. `ClimateNetwork.__init__` dispatching to the *overridden* `set_threshold` —,
+`_set_directed(d, False)`) = `HNet.setDirected` with the coherence / phase computed from the data -/
+theorem script_hilbert_setDirected (fr : Frame) (ha : fr.hasAdj = true) :
+    (run 6 true StructC09.hilbertSetDirected fr).map (·.h)
+      = some (fr.h.setDirected fr.argDir fr.envS fr.envP) := by
+  rw [setDirected_eq_state]
+  cases hd : fr.argDir <;>
+    simp [run, StructC09.hilbertSetDirected, StructC09.setDirectedCalc, StructC09.setDirectedNoCalc,
+      StructC09.regenerate, StructC09.init, StructC09.hilbertSetThreshold, StructC09.setThreshold,
+      execList, execStmt, setNet, val, back, setThresholdOf, mask, Net.assignAdjacency, ha, hd,
+      hilbertState, hilbertAdjacency, phaseMask_idem]
+
+/-- `HilbertClimateNetwork(data, threshold=θ, non_local=nl, directed=d)` as written = `mkHilbert` -/
+theorem script_hilbert_init (fr : Frame) (θ : Rat) (hθ : fr.initθ = some θ) :
+    (run 5 true StructC09.hilbertInit fr).map (·.h)
+      = some (hilbertState fr.h.net.N fr.argDir (absSim fr.envS) fr.envP fr.h.net.damp fr.argNl θ) := by
+  cases hd : fr.argDir <;>
+    simp [run, StructC09.hilbertInit, StructC09.setDirectedCalc, StructC09.setDirectedNoCalc,
+      StructC09.init, StructC09.hilbertSetThreshold, StructC09.setThreshold,
+      execList, execStmt, setNet, val, back, setThresholdOf, mask, Net.assignAdjacency, hθ, hd,
+      hilbertState, hilbertAdjacency, phaseMask_idem]
+
+/-- of all classes of the climate package only `HilbertClimateNetwork` overrides a method of the
+threshold machinery (`set_threshold`); every other subclass — Tsonis, Spearman, MutualInfo,
+PartialCorrelation, Havlin, Rainfall, EventSeries, Coupled… — inherits the code modelled above -/
+theorem gen_overrides : StructC09.overrides = [("HilbertClimateNetwork", "set_threshold")] := by
+  decide
+
+/-- taking the quantile over the upper triangle only (seeded change C09-3) is *not* the model: for
+a non-symmetric similarity the realised density exceeds the request (ρ = 0 requested, the selected
+threshold 1/4 leaves the link 1 → 0 with similarity 3/4) -/
+example : let S : Sim := fun i j => if i = j then 1 else if i < j then 1/4 else 3/4
+    (let l := sortAsc (selectEntries .upperTriangle S 2); l[min 1 (l.length - 1)]?) = some (1/4) ∧
+      thresholdFromIndex S 2 2 = some (3/4) ∧
+      nnz (thresholdAdjacency S (1/4) 2) = 1 ∧ nnz (thresholdAdjacency S (3/4) 2) = 0 := by
+  decide +kernel
+
+end Scripts
 
 end Pyunicorn.Similarity
